@@ -1,5 +1,5 @@
 """Registry of units and per-property texts (used for MANIFEST.json and the evidence files)."""
-UNITS = ["frame", "codec", "codec16"]
+UNITS = ["frame", "codec", "codec16", "gui"]
 
 ENGINE_ASM = ("engine contract (prelude/model.rs): Component/Trame/Array/DynOption of src/model/data.rs are assumed to "
               "serialize as the in-order concatenation of their non-skipped fields and to read field by field "
@@ -32,7 +32,7 @@ PROPERTIES.update({
               "rle_32_decompress, rgb565torgb32 and the raw 16/32 bpp paths are proved free of overflow, out-of-range index and non-termination for all inputs "
               "(every loop carries a decreases clause; the scanline loops decrease the ghost remaining input); rle_16_decompress: see level_note",
         technique="contract-based deductive verification: Verus (z3) loop invariants on function bodies extracted from /repo on every run",
-        level_note="trusted: byteorder/std Read contract on Cursor (prelude/base.rs); usize is 64 bit; allocation success of vec![0; n] is not modelled (n is proved <= 2*width*height*4)",
+        level_note="trusted: byteorder/std Read contract on Cursor (prelude/base.rs); usize is 64 bit; vstd's slice layout rule (a [u16] holds at most isize::MAX bytes, vstd::layout::layout_for_val_is_valid) is used for `x + 8` in rle_16_decompress; allocation success of vec![0; n] is not modelled (n is proved <= 2*width*height*4)",
         assumptions=[IO_ASM, "64-bit usize (global size_of usize == 8)", "memory allocation does not fail"],
         design_ref="DESIGN.md §7 C08"),
     "C09": dict(
@@ -43,6 +43,18 @@ PROPERTIES.update({
         level_note="the spec functions round5/round6/flip32/raw16 are written from MS-RDPBCGR 2.2.9.1.1.3.1.2.2 and the definition of rounding, not from the code; RLE functional equivalence is NOT proved unboundedly",
         assumptions=[IO_ASM, "64-bit usize"],
         design_ref="DESIGN.md §7 C09"),
+})
+
+PROPERTIES.update({
+    "C19": dict(
+        scope="fast_bitmap_transfer (GUI binary): for every window buffer, window width and bitmap geometry it returns Err or Ok; the safety contract of the raw copy "
+              "(source and destination ranges inside the two vectors) holds at the call on every path; no arithmetic overflow for any u16 geometry and any usize width; inverted rectangles "
+              "are refused with the buffer untouched; for rectangles inside the window the buffer afterwards equals the old buffer with exactly the rectangle's rows replaced by the rows of the decoded image",
+        technique="contract-based deductive verification: Verus (z3), function text extracted from src/bin/mstsc-rs.rs on every run",
+        level_note="trusted (rule R5): ptr::copy_nonoverlapping is replaced by prelude copy_rows whose precondition is the pointer-safety contract; transmute_vec<u8,u32> is a prelude stub (len/4 little-endian words); "
+                   "the layout UB of re-typing the allocation is outside any contract; BitmapEvent::decompress by its contract (proved in unit codec)",
+        assumptions=["rule R5: copy_rows / transmute_vec contracts stand for the unsafe code", "transmute_vec's dealloc-layout UB not modelled", "64-bit usize"],
+        design_ref="DESIGN.md §7 C19"),
 })
 
 NOT_APPLICABLE = {
